@@ -65,7 +65,7 @@ def gen_item(rnd):
     if r < 0.88:
         return f + "|" + rnd.choice(["windash", "windash|contains", "contains|windash"]), rnd.choice(["-a", "x -y", "a-b", "/q"])
     if r < 0.93:
-        return f + "|" + rnd.choice(["base64", "base64offset|contains", "wide|base64offset|contains", "base64|contains"]), rnd.choice(["ab", "x", "hello"])
+        return f + "|" + rnd.choice(["base64", "base64offset|contains", "wide|base64offset|contains", "base64|contains"]), rnd.choice(["ab", "x", "hello", "für", "Grüße", "€ 1"])
     m = rnd.choice(["neq", "contains|neq", "all|neq", "neq|cased", "re|neq", "cidr|neq", "gt|neq", "exists|neq"])
     if m.startswith("cidr"):
         return "ip|" + m, "10.0.0.0/7"
